@@ -112,6 +112,27 @@ def methods(ci: ClassInfo):
     return [(nm, a[1]) for nm, a in ci.attrs.items() if a[0] == "func"]
 
 
+KEEP_CLIENT = ("_request_profile", "_get_service_urls")
+_FLAT_CACHE: dict = {}
+
+
+def fmethods(p: Project, ci: ClassInfo):
+    """(name, original FunctionDef, flattened FunctionDef) for every method of the client class"""
+    from .flat import flat
+
+    key = (id(p), ci.name)
+    if key not in _FLAT_CACHE:
+        _FLAT_CACHE[key] = [(nm, fn, flat(p, ci.module, fn, ci, keep=KEEP_CLIENT)) for nm, fn in methods(ci)]
+    return _FLAT_CACHE[key]
+
+
+def fmethod(p: Project, ci: ClassInfo, name: str):
+    for nm, fn, ffn in fmethods(p, ci):
+        if nm == name:
+            return ffn
+    return None
+
+
 # --------------------------------------------------------------------------
 def n_r1_sinks(p: Project, rep: Report):
     rep.rule("N-R1", "network sinks (urlopen, opener.open, requests/Session calls, sockets, http.client) occur in ofxtools/Client.py only inside OFXClient.post_request; no global opener is installed anywhere in the package")
@@ -548,6 +569,7 @@ def n_r6_placeholder(p: Project, rep: Report):
         ok = bool(kw) and _sources(kw[0].value, node, reach) == {"param:url"}
         rep.check("N-R6", "_request_profile:forwards-url", ok, "the url parameter is not forwarded unchanged to download()" if not ok else "", loc(p, call))
     # signon(): userid falls back to self.userid only when None; userpass is used as given
+    so = fmethod(p, ci, "signon")
     scfg = CFG(so)
     sreach = Reaching(scfg)
     sonrq = scfg.nodes_calling(lambda c: isinstance(c.func, ast.Name) and c.func.id == "SONRQ")
